@@ -39,7 +39,9 @@ int main(int argc, char** argv) {
     prefixes.push_back(std::string(8, (char)255)); prefixes.push_back(prefixes[0] + rnd_bytes(8)); prefixes.push_back(prefixes[0] + std::string(8, (char)255));
     for (long i = 0; i < pool; i++) {
         std::string k;
-        if (mode == "short") k = rnd_bytes(rng() % (maxlen + 1));
+        if (mode == "boundary") { static const unsigned char B3[] = {0, 1, 255}; k = std::string(8, (char)0); k[0] = (char)B3[rng() % 3]; k[1] = (char)B3[rng() % 3]; k[7] = (char)B3[rng() % 3];
+                                  int L = rng() % 12; if (L <= 8) k.resize(L); else { std::string t(L - 8, (char)0); for (auto& ch : t) ch = (char)B3[rng() % 3]; k += t; } }
+        else if (mode == "short") k = rnd_bytes(rng() % (maxlen + 1));
         else if (mode == "prefix") { k = (rng() % 4 == 0) ? std::string() : prefixes[rng() % prefixes.size()]; if (rng() % 5 == 0) k.resize(rng() % (k.size() + 1)); k += rnd_bytes(rng() % (maxlen + 1)); }
         else { k = (rng() % 2) ? rnd_bytes(rng() % (maxlen + 1)) : prefixes[rng() % prefixes.size()] + rnd_bytes(rng() % (maxlen + 1)); }
         keys.push_back(k);
